@@ -112,7 +112,7 @@ class TypeMap:
         s = s.strip()
         for rx, ct in self.overrides:
             if rx.fullmatch(s) or rx.fullmatch(strip_cv(s)):
-                return ct
+                return self.vec(ct[4:]) if ct.startswith('vec:') else ct
         # pointer / reference suffix
         if s.endswith('&&'):
             return self.c(s[:-2]) + ' *'
@@ -123,7 +123,7 @@ class TypeMap:
             return self.c(s)
         for rx, ct in self.overrides:
             if rx.fullmatch(s):
-                return ct
+                return self.vec(ct[4:]) if ct.startswith('vec:') else ct
         if s in BUILTIN:
             return BUILTIN[s]
         m = re.fullmatch(r'(.*)\[(\d+)\]', s)
@@ -170,6 +170,8 @@ class TypeMap:
 
     def arr(self, elem, n):
         n = re.sub(r'[uUlL]+$', '', n.strip())
+        if not re.fullmatch(r'\d+', n):
+            raise ExtractError('std::array with a size that is not a literal in this context: ' + n)
         name = 'arr_%s_%s' % (ident(elem), n)
         if name not in self.decls:
             self.decls[name] = 'struct %s { %s a[%s]; };' % (name, elem, n)
